@@ -145,6 +145,10 @@ func installSeams() {
 	ftp.VerifDialTCP = func(network string, laddr, raddr *net.TCPAddr) (*net.TCPConn, error) {
 		return nil, &net.OpError{Op: "dial", Net: network, Addr: raddr, Err: fmt.Errorf("network is unreachable (simulated)")}
 	}
+	ftp.VerifDialConn = func(network string, laddr, raddr *net.TCPAddr) (net.Conn, error) {
+		// active mode: the service dials the address the client named in PORT/EPRT
+		return simnet.Current.Dial(network, raddr.String())
+	}
 	forward.VerifDial = func(network, address string) (net.Conn, error) {
 		return simnet.Current.Dial(network, address)
 	}
